@@ -95,10 +95,15 @@ def _buffer(inp):
 
 
 def _pure_call(inp, spy=False):
-    """buffer once (optionally observing the calls into shapely), then look at the argument again and buffer it
-    a second time: the function must not modify its argument nor remember anything"""
+    """buffer the same object with other buffers first, then the call that is judged (optionally observing the
+    calls into shapely), then look at the argument again and buffer it once more: the function must not modify
+    its argument nor remember anything"""
     d = gen_geom.to_data(inp["g"])
     before = gen_geom.from_data(d)
+    try:        # a first call on the same object with other buffers: nothing of it may show in the call that is judged
+        _call(d, {"tb": rat(frac(inp["tb"]) + 1), "fb": rat(frac(inp["fb"]) + 2)})
+    except Exception:  # noqa: BLE001
+        pass
     if spy:
         with _spying() as sp:
             r = _call(d, inp)
@@ -206,6 +211,7 @@ def _observe(sp, r):
     sc, un = np.asarray(f1(one.copy()), dtype=float)[0], np.asarray(f2(one.copy()), dtype=float)[0]
     obs = {"scaled": [rat(sc[0]), rat(sc[1])], "dist": rat(dist), "unscaled": [rat(un[0]), rat(un[1])],
            "rect": [rat(x) for x in rect], "qm": rat(B.bounds[2]) if not B.is_empty else None,
+           "max_time": rat(U.bounds[2]) if not U.is_empty else None,
            "returned_clipped": bool(geometry_to_shapely(r).equals(C))}
     con = {}
     if not B.is_empty:
@@ -399,11 +405,11 @@ def _cmp_pipeline(inp, io, mo):
     for a, b in zip(obs["unscaled"], m["unscaled"]):
         if not tol_eq(frac(b), _f(a)):
             return f"inverse scale factor {_f(a)!r}, model {b}"
-    for i in (0, 1, 3):
-        if frac(obs["rect"][i]) != frac(m["rect"][i]):
-            return f"clip rectangle {obs['rect']}, model {m['rect']}"
-    if obs["qm"] is not None and not tol_eq(frac(m["rect"][2]), _f(obs["rect"][2])):
-        return f"clip rectangle ends at {_f(obs['rect'][2])!r}, model {m['rect'][2]}"
+    r = obs["rect"]
+    if [frac(r[0]), frac(r[1]), frac(r[3])] != [frac(x) for x in m["rect"]]:
+        return f"clip rectangle {r}, model {m['rect']}"
+    if obs["qm"] is not None and not (m["clip_keeps_max_time"] or tol_eq(frac(obs["max_time"]), _f(r[2]))):
+        return f"clip rectangle ends at {_f(r[2])!r}, before the largest time of the buffer {_f(obs['max_time'])!r}"
     if not obs["returned_clipped"]:
         return "the returned geometry is not the clipped shape"
     return None
@@ -435,7 +441,8 @@ def _holds_pipeline(ctx, inp, io):
 
 def _to_model_pipeline(inp):
     obs = _PIPE_CACHE.get(jkey(inp)) or {}
-    return {"px": "1", "py": "1", "qx": "1", "qy": "1", "qm": obs.get("qm") or "0", "tb": inp["tb"], "fb": inp["fb"]}
+    return {"px": "1", "py": "1", "qx": "1", "qy": "1", "qm": obs.get("qm") or "0",
+            "xmax": (obs.get("rect") or ["0"] * 4)[2], "tb": inp["tb"], "fb": inp["fb"]}
 
 
 def _to_model_shapely(inp):
@@ -548,28 +555,37 @@ class _Built:
         self.coordinates = coords
 
 
-class _Ctor:
-    """stands in for data.TimeInterval / data.BoundingBox: runs the class's own field validators (the real
-    code, in pydantic's order) on the symbolic coordinates and records the result"""
+class _CtorMeta(type):
+    """the nine geometry classes as the traced code sees them: `data.X(coordinates=...)` runs the class's own
+    field validators (the real code, in pydantic's order) on the symbolic coordinates and records the result;
+    `isinstance(g, data.X)` looks at the stub's type tag"""
 
-    def __init__(self, cls, tag):
-        self.cls = cls
-        self.tag = tag
+    def __instancecheck__(cls, obj):
+        return getattr(obj, "type", None) == cls.tag
 
-    def __call__(self, coordinates):
-        v = list(coordinates)
-        decs = self.cls.__pydantic_decorators__.field_validators
-        for dec in decs.values():
-            if "coordinates" in dec.info.fields:
-                v = dec.func(v)
-        return _Built(self.tag, list(v))
+    def __call__(cls, coordinates=None, **kw):
+        v = coordinates
+        if cls.validate:
+            v = list(v)
+            decs = cls.real.__pydantic_decorators__.field_validators
+            for dec in decs.values():
+                if "coordinates" in dec.info.fields:
+                    v = dec.func(v)
+            v = list(v)
+        return _Built(cls.tag, v)
+
+
+def _Ctor(real_cls, tag, validate=True):
+    return _CtorMeta("Stub" + tag, (), {"real": real_cls, "tag": tag, "validate": validate})
 
 
 class _DataProxy:
     def __init__(self, real):
         self._real = real
-        self.TimeInterval = _Ctor(real.TimeInterval, "TimeInterval")
-        self.BoundingBox = _Ctor(real.BoundingBox, "BoundingBox")
+        for tag in gen_geom.TYPES:
+            cls = getattr(real, tag, None)
+            if cls is not None:
+                setattr(self, tag, _Ctor(cls, tag, validate=tag in ("TimeInterval", "BoundingBox")))
 
     def __getattr__(self, name):
         return getattr(self._real, name)
@@ -587,9 +603,10 @@ class _Marker:
 
 
 def _geom_leaf(v):
-    if not isinstance(v, _Built):
+    if not isinstance(v, (_Built, _StubGeometry)):
         raise TypeError(f"traced function returned {type(v).__name__}")
-    c = [symx.num(x) for x in v.coordinates]
+    cs = v.coordinates if isinstance(v.coordinates, (list, tuple)) else [v.coordinates]
+    c = [symx.num(x) for x in cs]
     if v.type == "TimeInterval" and len(c) == 2:
         return f"some (SE.Geom.timeInterval {c[0]} {c[1]})"
     if v.type == "BoundingBox" and len(c) == 4:
@@ -604,7 +621,26 @@ _DEFS = ["SE.Buf.bufferGeometry", "SE.Buf.bufferTS", "SE.Buf.bufferTI", "SE.Buf.
 
 
 def _tactic(name):
-    return f"unfold {name}\n  " + "\n  ".join(f"try unfold {d}" for d in _DEFS) + "\n  first | rfl | grind (splits := 60) | se_close"
+    return (f"unfold {name}\n  try simp only [SE.Buf.valid, SE.Buf.okTime, SE.Buf.okPt, Bool.and_eq_true, decide_eq_true_eq] at hv\n  "
+            + "\n  ".join(f"try unfold {d}" for d in _DEFS) + "\n  try unfold SE.MAXF at hv\n  first | rfl | grind (splits := 60) | se_close")
+
+
+def _tie_valid(ctx, name, fn, variables, model_term, witness, meta):
+    """symx.sym_tie, with the property's quantifier as a hypothesis: the traced function equals the model on
+    every *valid* geometry (and every pair of buffers, negative ones included)"""
+    try:
+        src, tree, n = symx.extract(name, fn, variables, "Option SE.Geom", _geom_leaf)
+    except InfraError:
+        raise
+    except Exception as e:  # noqa: BLE001 - the stub no longer fits the code: a broken obligation, never a crash
+        ctx.symbolic_ties[name] = {"error": repr(e)[:300]}
+        ctx.pre_failed.append(name)
+        ctx.fail("obligation", name, detail=f"symbolic trace of the current source failed: {e!r}", extra=dict(meta))
+        return
+    ctx.symbolic_ties[name] = {"paths": n}
+    args = " ".join(variables)
+    ctx.obligation(name, f"{src}\ntheorem {name}_tie ({args} : Rat) (hv : SE.Buf.valid {witness} = true) : "
+                         f"{name} {args} = {model_term} := by\n  {_tactic(name)}\n", meta)
 
 
 _LIB = "(fun _ tb fb => some (SE.Geom.point tb fb))"
@@ -637,23 +673,26 @@ def _symbolic_ties(ctx):
                  _StubGeometry("BoundingBox", [sy["s"], sy["l"], sy["e"], sy["h"]]), time_buffer=tb, freq_buffer=fb),
              "SE.Buf.bufferBB s l e h tb fb"),
         ]
-        for fname, V, thunk, mterm in closed:
+        for (fname, V, thunk, mterm), ty in zip(closed, CLOSED):
             name = "ext_" + fname
-            symx.sym_tie(ctx, name, thunk, V, "Option SE.Geom", mterm, _geom_leaf,
-                         tactic=_tactic(name),
-                         meta={"op": "buffer_closed"})
+            _tie_valid(ctx, name, thunk, V, mterm, _WITNESS[ty][1], {"op": "buffer_closed"})
         # guard + dispatch of buffer_geometry, for every type tag
         for ty in gen_geom.TYPES:
             cv, witness = _WITNESS[ty]
             coords = [sy[n] for n in cv]
             coords = coords[0] if ty == "TimeStamp" else coords
             name = "ext_buffer_geometry_" + ty
+            if ty in CLOSED:
+                _tie_valid(ctx, name,
+                           lambda ty=ty, coords=coords: ops.buffer_geometry(_StubGeometry(ty, coords), time_buffer=tb, freq_buffer=fb),
+                           cv + ["tb", "fb"], f"SE.Buf.bufferGeometry {_LIB} {witness} tb fb", witness, {"op": "buffer_closed"})
+                continue
             symx.sym_tie(ctx, name,
                          lambda ty=ty, coords=coords: ops.buffer_geometry(_StubGeometry(ty, coords), time_buffer=tb, freq_buffer=fb),
                          cv + ["tb", "fb"], "Option SE.Geom",
                          f"SE.Buf.bufferGeometry {_LIB} {witness} tb fb", _geom_leaf,
                          tactic=_tactic(name),
-                         meta={"op": "buffer_closed" if ty in CLOSED else "buffer_shapely"})
+                         meta={"op": "buffer_shapely"})
     finally:
         for n, v in orig.items():
             if v is not None:
@@ -723,6 +762,10 @@ class _SymShape:
     def buffer(self, distance, **kw):
         return _ShapelyStub.buffer_(self._log, self, distance)
 
+    @property
+    def __geo_interface__(self):
+        return {"type": self._log["kind"], "coordinates": self}
+
 
 class _GeoJson:
     def __init__(self, kind, shape):
@@ -734,6 +777,7 @@ class _ShapelyStub:
 
     def __init__(self, real, log, kind):
         self._real, self._log, self._kind = real, log, kind
+        log["kind"] = kind
 
     def __getattr__(self, name):
         return getattr(self._real, name)
@@ -758,7 +802,7 @@ class _ShapelyStub:
     def clip_by_rect(self, geometry, xmin, ymin, xmax, ymax, **kw):
         if "clip" in self._log:
             raise TypeError("shapely.clip_by_rect called more than once")
-        self._log["clip"] = (geometry.pt, [xmin, ymin, xmax, ymax])
+        self._log["clip"] = (geometry.pt, [xmin, ymin, xmax, ymax], geometry.bounds[2])
         return _SymShape(self._log, geometry.pt, geometry.bounds)
 
     def to_geojson(self, geometry, *a, **kw):
@@ -778,14 +822,6 @@ class _JsonStub:
         return self._real.loads(s, *a, **kw)
 
 
-class _PolyCtor:
-    def __init__(self, tag):
-        self.tag = tag
-
-    def __call__(self, coordinates):
-        return _Built(self.tag, coordinates)
-
-
 def _pipeline_thunk(ops, kind, tb, fb):
     """run the real `buffer_shapely_geometry` on a symbolic shape; the value is everything it asked of shapely"""
     import json as real_json
@@ -795,7 +831,6 @@ def _pipeline_thunk(ops, kind, tb, fb):
     def thunk():
         log = {}
         proxy = _DataProxy(real_data)
-        proxy.Polygon, proxy.MultiPolygon = _PolyCtor("Polygon"), _PolyCtor("MultiPolygon")
         saved = {n: getattr(ops, n, None) for n in ("shapely", "json", "data")}
         ops.shapely, ops.json, ops.data = _ShapelyStub(real_shapely, log, kind), _JsonStub(real_json), proxy
         try:
@@ -819,12 +854,12 @@ def _pipeline_thunk(ops, kind, tb, fb):
 def _pipeline_leaf(log):
     n = symx.num
     sc, dist = log["buffer"]
-    un, rect = log["clip"]
+    un, rect, max_time = log["clip"]
     return (f"some (({n(sc[0])}, {n(sc[1])}), {n(dist)}, ({n(un[0])}, {n(un[1])}), "
-            f"{n(rect[0])}, {n(rect[1])}, {n(rect[2])}, {n(rect[3])})")
+            f"{n(rect[0])}, {n(rect[1])}, decide ({n(max_time)} ≤ {n(rect[2])}), {n(rect[3])})")
 
 
-_PIPE_DEFS = ["SE.Buf.pipelineSkeleton", "SE.Buf.scalePt", "SE.Buf.unscalePt", "SE.Buf.clipRect", "SE.Buf.factor", "SE.MAXF"]
+_PIPE_DEFS = ["SE.Buf.pipelineSkeletonSpec", "SE.Buf.scalePt", "SE.Buf.unscalePt", "SE.Buf.clipRect", "SE.Buf.factor", "SE.MAXF"]
 
 
 def _pipeline_ties(ctx):
@@ -833,10 +868,11 @@ def _pipeline_ties(ctx):
     for kind in ("Polygon", "MultiPolygon"):
         name = "ext_buffer_shapely_geometry_" + kind
         tac = (f"unfold {name}\n  " + "\n  ".join(f"try unfold {d}" for d in _PIPE_DEFS)
-               + "\n  first | rfl | (split <;> split <;> simp) | grind (splits := 20) | se_close")
+               + "\n  first\n  | rfl\n  | ((repeat' split) <;> (try simp only [Option.some.injEq, Prod.mk.injEq, decide_eq_true_eq]) <;> grind)"
+               + "\n  | grind (splits := 20)\n  | se_close")
         symx.sym_tie(ctx, name, _pipeline_thunk(ops, kind, tb, fb), ["px", "py", "qx", "qy", "qm", "tb", "fb"],
-                     "Option (SE.Pt × Rat × SE.Pt × Rat × Rat × Rat × Rat)",
-                     "some (SE.Buf.pipelineSkeleton px py qx qy qm tb fb)", _pipeline_leaf,
+                     "Option (SE.Pt × Rat × SE.Pt × Rat × Rat × Bool × Rat)",
+                     "some (SE.Buf.pipelineSkeletonSpec px py qx qy tb fb)", _pipeline_leaf,
                      tactic=tac, meta={"op": "buffer_shapely"})
 
 
